@@ -37,6 +37,7 @@ func runC18(c *core.Ctx, r *core.Reporter) {
 	c18frame(c, r)
 	c18rootback(c, r)
 	c18conv(c, r)
+	c18reuse(c, r)
 }
 
 // c18conv: in the Go data bridge an integer becomes a Lisp integer through value-preserving conversions only.
@@ -583,5 +584,54 @@ func c18frame(c *core.Ctx, r *core.Reporter) {
 		}
 		walk(root, 0)
 		r.Decide(len(bad) == 0, rule, b.Key(), c.Pos(pos), fmt.Sprintf("writes into a shared JSON tree reachable from this reader: %v", bad))
+	}
+}
+
+// c18reuse: a reusing ojg parser (Parser.Reuse) hands out maps and slices that the next parse clears and
+// refills: data parsed earlier and kept in a bag changes when later text is parsed. Every parse site of the
+// module is an instance; a parse through a Parser value is accepted only while no store in the module sets the
+// Reuse field of an ojg parser to anything but the constant false. Two independent seeded changes set it.
+func c18reuse(c *core.Ctx, r *core.Reporter) {
+	const rule = "C18.reuse"
+	r.Rule(rule, "no JSON/SEN parse of the module goes through an ojg parser that reuses its containers: the Reuse field of an ojg Parser is never set (composite literal, assignment) to anything but false, so what a parse returns is never overwritten by a later parse", 10)
+	isOjg := func(p *types.Package) bool {
+		return p != nil && strings.HasPrefix(p.Path(), "github.com/ohler55/ojg")
+	}
+	var setters []string
+	for _, fn := range append(c.ModuleFuncs(), c.ModuleInits()...) {
+		for _, b := range fn.Blocks {
+			for _, in := range b.Instrs {
+				st, ok := in.(*ssa.Store)
+				if !ok {
+					continue
+				}
+				f := fieldOfAddr(st.Addr)
+				if f == nil || f.Name() != "Reuse" || !isOjg(f.Pkg()) {
+					continue
+				}
+				if k, ok := st.Val.(*ssa.Const); ok && k.Value != nil && k.Value.String() == "false" {
+					continue
+				}
+				setters = append(setters, c.Pos(st.Pos()))
+				r.Violate(rule, core.SSAName(fn)+"|Reuse set", c.Pos(st.Pos()), "the Reuse flag of an ojg parser is set: containers returned by one parse are cleared and refilled by the next, so data already stored in a bag changes")
+			}
+		}
+	}
+	for _, fn := range c.ModuleFuncs() {
+		n := 0
+		for _, b := range fn.Blocks {
+			for _, in := range b.Instrs {
+				g := core.StaticCalleeOf(in)
+				if g == nil || g.Pkg == nil || !isOjg(g.Pkg.Pkg) || !strings.Contains(g.Name(), "Parse") && !strings.Contains(g.Name(), "Load") {
+					continue
+				}
+				n++
+				key := fmt.Sprintf("%s|%s", core.SSAName(fn), g.Name())
+				if n > 1 {
+					key = fmt.Sprintf("%s#%d", key, n)
+				}
+				r.Decide(len(setters) == 0, rule, key, c.Pos(in.Pos()), fmt.Sprintf("parse site; stores setting Reuse in the module: %v", setters))
+			}
+		}
 	}
 }
